@@ -80,6 +80,18 @@ class Boom(Exception):
     pass
 
 
+def _small(b):
+    if isinstance(b, (int, float)) and not (abs(b) <= 64):
+        raise OverflowError("exponent or shift too large")
+    return b
+
+
+def _cap(v):
+    if isinstance(v, int) and abs(v) > 10**50:
+        raise OverflowError("number too large for a Vec")
+    return v
+
+
 class Vec(object):
     """operator overloads, properties, methods returning references and values"""
 
@@ -115,9 +127,9 @@ class Vec(object):
         if isinstance(o, Vec):
             if len(o.xs) != len(self.xs):
                 raise ValueError("length mismatch")
-            return Vec([f(a, b) for a, b in zip(self.xs, o.xs)])
+            return Vec([_cap(f(a, b)) for a, b in zip(self.xs, o.xs)])
         if isinstance(o, (int, float)) and not isinstance(o, bool):
-            return Vec([f(a, o) for a in self.xs])
+            return Vec([_cap(f(a, o)) for a in self.xs])
         return NotImplemented
 
     def __add__(self, o): return self._lift(o, lambda a, b: a + b)
@@ -129,7 +141,7 @@ class Vec(object):
     def __truediv__(self, o): return self._lift(o, lambda a, b: a / b)
     def __floordiv__(self, o): return self._lift(o, lambda a, b: a // b)
     def __mod__(self, o): return self._lift(o, lambda a, b: a % b)
-    def __pow__(self, o): return self._lift(o, lambda a, b: a ** b)
+    def __pow__(self, o): return self._lift(o, lambda a, b: a ** _small(b))
     def __matmul__(self, o):
         if isinstance(o, Vec):
             return sum(a * b for a, b in zip(self.xs, o.xs))
@@ -138,7 +150,7 @@ class Vec(object):
     def __and__(self, o): return self._lift(o, lambda a, b: a & b)
     def __or__(self, o): return self._lift(o, lambda a, b: a | b)
     def __xor__(self, o): return self._lift(o, lambda a, b: a ^ b)
-    def __lshift__(self, o): return self._lift(o, lambda a, b: a << b)
+    def __lshift__(self, o): return self._lift(o, lambda a, b: a << _small(b))
     def __rshift__(self, o): return self._lift(o, lambda a, b: a >> b)
     def __neg__(self): return Vec([-a for a in self.xs])
     def __pos__(self): return Vec([+a for a in self.xs])
@@ -1280,6 +1292,25 @@ def gen_op(r, side, i):
     ])()
 
 
+def tame(r, op):
+    """operands that would make Python itself run (nearly) forever or allocate gigabytes -- x ** 10**30, [0] * 2**31, 1 << 10**30 --
+    are replaced by small ones: cost is not part of the property"""
+    if op[0] in ("binop", "rbinop", "ibinop") and op[2] in ("pow", "mul", "lshift", "imul") and "imm" in op[3]:
+        v = mk_value(op[3], {})
+
+        def big(x):
+            if type(x) is int:
+                return abs(x) > 64
+            if type(x) is float:
+                return x != x or abs(x) > 64
+            if type(x) in (tuple, frozenset):
+                return any(big(y) for y in x)
+            return type(x) is complex
+        if big(v):
+            op = op[:3] + [imm(r.choice([0, 1, 2, 3, -1, 5]))]
+    return op
+
+
 def gen_case(r, cfg, nops=25, kind=None):
     """generate online against a scratch twin so that indexes, keys and method names are mostly meaningful"""
     spec = gen_target(r, kind or r.choice(KINDS))
@@ -1301,6 +1332,7 @@ def gen_case(r, cfg, nops=25, kind=None):
                     continue
             else:
                 op = [r.choice(["repr", "len", "bool", "iter"]), i]
+            op = tame(r, op)
             if op[0] == "callm" and r.random() < 0.2 and callable(getattr(type(side.slots[op[1]]), op[2], None)):
                 op = ["tcallm"] + op[1:]
             ops.append(op)
